@@ -75,7 +75,11 @@ def concatenate(model, info, art):
         return ("contradicted" if not (same and chains) else "confirmed"), f"{docs}: ValueError {e}"
     lo = min(d["indices"]["start"] for d in docs)
     hi = max(d["indices"]["stop"] for d in docs)
-    ok = (same and chains) and out["indices"] == {"start": lo, "stop": hi}
+    first = min(docs, key=lambda d: d["indices"]["start"])
+    last = max(docs, key=lambda d: d["indices"]["stop"])
+    ok = ((same and chains) and dict(out["indices"]) == {"start": lo, "stop": hi}
+          and dict(out["seq_nums"]) == {"start": first["seq_nums"]["start"], "stop": last["seq_nums"]["stop"]}
+          and out["descriptor"] == docs[0]["descriptor"] and out["stream_resource"] == docs[0]["stream_resource"])
     return ("contradicted" if ok else "confirmed"), f"{docs} -> {out}"
 
 
